@@ -9,6 +9,7 @@ with tempfile.TemporaryDirectory() as d:
     x = os.path.join(d, "j.xml")
     env = dict(os.environ)
     env.pop("HISTOGRAMMAR_PYTHON_VERIF", None)
+    env["PYTHONPATH"] = repo
     p = subprocess.run(
         ["/venv/bin/python", "-m", "pytest", "-ra", "-q", "-p", "no:cacheprovider", "--timeout=900",
          "--continue-on-collection-errors", f"--junitxml={x}"], cwd=repo, env=env, capture_output=True, text=True)
